@@ -1,8 +1,50 @@
 """Run one generated case (machine, input, task plans) on the real engine in the simulator and
 collect the observables the properties constrain."""
-import copy, json
+import contextlib, copy, json
 import sim as simmod
 from machgen import ARN
+
+
+@contextlib.contextmanager
+def data_limit(limit=None, refusals=None):
+    """Small-limit mode: for the engine run inside the block the size limit of the code under test
+    (`state_engine.MAX_DATA_LENGTH` — the output check of `change_state` — and
+    `task_dispatcher.MAX_DATA_LENGTH` — the check of a worker's reply text) is `limit` characters;
+    both constants are put back afterwards, also when the block raises.  `limit=None` leaves them alone.
+    With a list `refusals`, every transition `change_state` refuses is appended to it as
+    {"state", "type", "error", "retries"} (a pass-through observer around the real method), every size it
+    measured as {"size", "state", "type"}; an entry
+    {"cause_text_decides": True, ...} is appended for a size check whose verdict depends on the text of an
+    engine-generated Cause inside the data (the properties do not constrain that text, the comparisons mask
+    it, so the reference semantics cannot know on which side of the limit such data falls)."""
+    import asl_workflow_engine.state_engine as se
+    import asl_workflow_engine.task_dispatcher as td
+    old = (se.MAX_DATA_LENGTH, td.MAX_DATA_LENGTH)
+    real = se.StateEngine.change_state
+    if refusals is not None:
+        def change_state(self, state_machine, state_type, next_state, event):
+            st = event["context"]["State"]
+            name, retries = st.get("Name"), st.get("RetryCount", 0)
+            data = event["data"]
+            n_real, n_masked = len(json.dumps(data)), len(json.dumps(mask_cause(data)))
+            lim = se.MAX_DATA_LENGTH
+            if next_state is not None:
+                refusals.append({"size": n_real, "state": name, "type": state_type,
+                                 "text": json.dumps(data, separators=(",", ":"))})
+                if (n_real > lim) != (n_masked > lim):
+                    refusals.append({"cause_text_decides": True, "state": name, "type": state_type})
+            res = real(self, state_machine, state_type, next_state, event)
+            if res[0]:
+                refusals.append({"state": name, "type": state_type, "error": res[0], "retries": retries})
+            return res
+        se.StateEngine.change_state = change_state
+    try:
+        if limit is not None:
+            se.MAX_DATA_LENGTH = td.MAX_DATA_LENGTH = limit
+        yield
+    finally:
+        se.MAX_DATA_LENGTH, td.MAX_DATA_LENGTH = old
+        se.StateEngine.change_state = real
 
 
 def canon_payload(p):
@@ -62,7 +104,28 @@ class Result(object):
 
 
 def run_case(machine, data, plans, policy="canonical", rng=None, sm_type="STANDARD", max_steps=4000,
-             instances=1, name="e1", sim=None, monitor=None, logging_cfg=None):
+             instances=1, name="e1", sim=None, monitor=None, logging_cfg=None, max_data=None):
+    """`max_data`: run the engine with that size limit (small-limit mode, see `data_limit`); the
+    transitions it refused are in `r.refusals`."""
+    refusals = []
+    with data_limit(max_data, refusals):
+        r = _run_case(machine, data, plans, policy, rng, sm_type, max_steps, instances, name, sim, monitor, logging_cfg)
+    r.refusals = [x for x in refusals if "error" in x]
+    r.cause_text_decides = [x for x in refusals if x.get("cause_text_decides")]
+    replies = [d for ents in pl_table(r).values() for (_p, reps) in ents.values() for d in reps]
+    r.sizes = [x["size"] for x in refusals if "size" in x] + [len(json.dumps(d)) for d in replies]
+    # every datum a size check measured, as protocol text, with the length the code saw
+    r.measured = ([(x["text"], x["size"]) for x in refusals if "size" in x] +
+                  [(json.dumps(d, separators=(",", ":")), len(json.dumps(d))) for d in replies])
+    r.max_data = max_data
+    return r
+
+
+def pl_table(r):
+    return r.plans.table
+
+
+def _run_case(machine, data, plans, policy, rng, sm_type, max_steps, instances, name, sim, monitor, logging_cfg):
     s = sim or simmod.Sim(instances=instances)
     arn = ARN + "m1"
     s.put_machine(arn, copy.deepcopy(machine), type=sm_type, logging=logging_cfg)
